@@ -76,6 +76,8 @@ structure TaskRow where
   hasNext : Bool
   errorHandled : Bool
   trig : List (Tid × String)      -- runtime_context.triggered_by: (task execution, event)
+  keyed : Bool := true            -- has its unique key (false: a join created from a command restored from the
+                                  -- backlog, `wait` / `unique_key` are lost: Model/EngineX.lean)
   deriving Repr
 
 /-- a command of the workflow controller: run task `target`, triggered by `src` -/
